@@ -95,6 +95,83 @@ Example persist_fail_witness :
   cflat (persist_fail_wrong wrong_c) = [([112; 1], [1]); ([112; 2], [1])].
 Proof. vm_compute. repeat split. Qed.
 
+(* ------------------------------------------------------------------ the flush mode as a parameter *)
+
+(* one flush attempt: Persist (sync = false: the lock is dropped around the write below, the batches ws are written into
+   the cache meanwhile) or PersistSync (sync = true: the lock is held, nothing interleaves); the write below succeeds or fails *)
+Definition persist_attempt (sync fails : bool) (ws : list lmap) (c : cstate) : cstate :=
+  let c1 := cstep c ASwap in
+  let c2 := if sync then c1 else crun c1 (map AWrite ws) in
+  if fails then persist_fail c2 else cstep (cstep c2 ALowerWrite) AUnswap.
+
+Lemma writes_run l : forall s, cwf s -> Forall (fun b => sorted false b /\ keys_ok b) l ->
+  cwf (crun s (map AWrite l)) /\ ctemp (crun s (map AWrite l)) = ctemp s /\
+  cflat (crun s (map AWrite l)) = fold_left (fun f b => apply_writes b f) l (cflat s).
+Proof.
+  induction l as [|b l IH]; intros s Hs Hl; [simpl; auto|]. inv Hl. destruct H1 as [Sb Kb].
+  change (crun s (map AWrite (b :: l))) with (crun (cstep s (AWrite b)) (map AWrite l)).
+  assert (Hs' : cwf (cstep s (AWrite b))) by (apply cstep_wf; simpl; auto).
+  destruct (IH _ Hs' H2) as (W & T & F). split; [exact W|]. split; [rewrite T; reflexivity|].
+  rewrite F. cbn [fold_left]. f_equal.
+  pose proof (persist_regions_preserve_flat s (AWrite b) Hs) as H. cbv beta iota in H. now apply H.
+Qed.
+
+(* the law in both modes, for success and for failure: the one map afterwards is the one map before with exactly the
+   batches that were written meanwhile (none in sync mode) *)
+Theorem persist_attempt_flat sync fails ws c : cwf c -> Forall (fun b => sorted false b /\ keys_ok b) ws ->
+  cflat (persist_attempt sync fails ws c) = cflat (if sync then c else crun c (map AWrite ws)) /\
+  cwf (persist_attempt sync fails ws c).
+Proof.
+  intros Hc Hws. unfold persist_attempt.
+  assert (H1 : cwf (cstep c ASwap)) by (apply cstep_wf; simpl; auto).
+  pose proof (persist_regions_preserve_flat c ASwap Hc) as F1. cbv beta iota in F1.
+  assert (H2 : cwf (if sync then cstep c ASwap else crun (cstep c ASwap) (map AWrite ws)) /\
+               cflat (if sync then cstep c ASwap else crun (cstep c ASwap) (map AWrite ws)) =
+               cflat (if sync then c else crun c (map AWrite ws))).
+  { destruct sync; [split; auto|].
+    destruct (writes_run ws _ H1 Hws) as (W1 & _ & E1). destruct (writes_run ws _ Hc Hws) as (_ & _ & E2).
+    split; auto. now rewrite E1, E2, F1. }
+  destruct H2 as [W2 E2]. set (c2 := if sync then cstep c ASwap else crun (cstep c ASwap) (map AWrite ws)) in *.
+  destruct fails.
+  - split; [now rewrite persist_fail_flat|now apply persist_fail_wf].
+  - assert (H3 : cwf (cstep c2 ALowerWrite)) by (apply cstep_wf; simpl; auto).
+    split; [|apply cstep_wf; simpl; auto].
+    rewrite (persist_regions_preserve_flat _ AUnswap H3 : cflat _ = _).
+    now rewrite (persist_regions_preserve_flat _ ALowerWrite W2 : cflat _ = _).
+Qed.
+
+(* the special case asked for: a failed PersistSync (empty interleaved set) leaves the one map unchanged *)
+Corollary persist_sync_fail_flat c : cwf c -> cflat (persist_attempt true true [] c) = cflat c.
+Proof. intros Hc. now destruct (persist_attempt_flat true true [] c Hc (Forall_nil _)). Qed.
+
+(* "a sync flush holds the lock, there is nothing to merge back": s.ps restored, the tempstore's maps dropped *)
+Definition persist_fail_norecover (c : cstate) : cstate :=
+  match ctemp c with
+  | Some (t, false) => {| cbk := cbk c; cm := cm c; ctemp := None; cx := cx c; rsnap := rsnap c; rans := rans c |}
+  | _ => c
+  end.
+Definition sync_no_recovery_statement : Prop :=
+  forall c, cwf c -> ctemp c = None -> cflat (persist_fail_norecover (cstep c ASwap)) = cflat c.
+
+Definition norec_c : cstate :=
+  {| cbk := BLevel; cm := [([3; 1], Some [9]); ([112; 1], None); ([112; 2], Some [2])]; ctemp := None;
+     cx := [([112; 1], [1]); ([112; 2], [1])]; rsnap := None; rans := None |}.
+
+(* the whole un-flushed change set is lost: the new key is missing, the overwritten value is stale, the deleted key is back *)
+Theorem sync_no_recovery_refuted : ~ sync_no_recovery_statement.
+Proof.
+  intros H. specialize (H norec_c).
+  assert (E : cflat (persist_fail_norecover (cstep norec_c ASwap)) = cflat norec_c).
+  { apply H; [|reflexivity]. unfold cwf, norec_c; simpl. repeat split; auto; repeat constructor; simpl; try lia; try discriminate. }
+  vm_compute in E. discriminate.
+Qed.
+
+Example sync_no_recovery_witness :
+  cflat norec_c = [([3; 1], [9]); ([112; 2], [2])] /\
+  cflat (persist_attempt true true [] norec_c) = [([3; 1], [9]); ([112; 2], [2])] /\
+  cflat (persist_fail_norecover (cstep norec_c ASwap)) = [([112; 1], [1]); ([112; 2], [1])].
+Proof. vm_compute. repeat split. Qed.
+
 (* ------------------------------------------------------------------ with layers above (depth >= 2) *)
 
 Record fstate := { ups : list lmap; fsub : cstate }.
@@ -103,13 +180,24 @@ Inductive fact :=
 | FW (b : lmap)              (* PutChangeSet into the layer that is flushed *)
 | FWTop (i : nat) (b : lmap) (* PutChangeSet into the i-th layer above it (0 = top) *)
 | FSwap | FLw | FUn          (* the three regions of a successful Persist *)
-| FFail.                     (* the lower PutChangeSet fails: error branch *)
+| FFail                      (* the lower PutChangeSet fails: error branch *)
+| FSync                      (* PersistSync (or Persist of a private layer) that succeeds: the three regions under one lock *)
+| FSyncFail                  (* PersistSync (or Persist of a private layer) whose lower PutChangeSet fails *)
+| FWLow (b : lmap).          (* a batch written into what lies below the flushed layer (only between two flushes) *)
 
 Fixpoint upd_nth (i : nat) (f : lmap -> lmap) (l : list lmap) : list lmap :=
   match l, i with
   | [], _ => []
   | m :: t, O => f m :: t
   | m :: t, S i' => m :: upd_nth i' f t
+  end.
+
+(* what lies below the flushed layer is seen through its content [cx] (for layers below: their flattening; a batch put
+   into them is that batch applied to the content) *)
+Definition write_low (b : lmap) (c : cstate) : cstate :=
+  match ctemp c with
+  | None => {| cbk := cbk c; cm := cm c; ctemp := None; cx := apply_writes b (cx c); rsnap := rsnap c; rans := rans c |}
+  | Some _ => c
   end.
 
 Definition fstep (s : fstate) (a : fact) : fstate :=
@@ -120,6 +208,9 @@ Definition fstep (s : fstate) (a : fact) : fstate :=
   | FLw => {| ups := ups s; fsub := cstep (fsub s) ALowerWrite |}
   | FUn => {| ups := ups s; fsub := cstep (fsub s) AUnswap |}
   | FFail => {| ups := ups s; fsub := persist_fail (fsub s) |}
+  | FSync => {| ups := ups s; fsub := cstep (cstep (cstep (fsub s) ASwap) ALowerWrite) AUnswap |}
+  | FSyncFail => {| ups := ups s; fsub := persist_fail (cstep (fsub s) ASwap) |}
+  | FWLow b => {| ups := ups s; fsub := write_low b (fsub s) |}
   end.
 Definition frun_ (s : fstate) (l : list fact) : fstate := fold_left fstep l s.
 
@@ -133,7 +224,7 @@ Definition f_get (s : fstate) (k : key) : option val := get_layers (f_layers s) 
 
 Definition fwf (s : fstate) : Prop := Forall (fun m => sorted false m /\ keys_ok m) (ups s) /\ cwf (fsub s).
 Definition fact_ok (a : fact) : Prop :=
-  match a with FW b | FWTop _ b => sorted false b /\ keys_ok b | _ => True end.
+  match a with FW b | FWTop _ b | FWLow b => sorted false b /\ keys_ok b | _ => True end.
 
 Lemma upd_nth_wf i b : forall l, sorted false b -> keys_ok b -> Forall (fun m => sorted false m /\ keys_ok m) l ->
   Forall (fun m => sorted false m /\ keys_ok m) (upd_nth i (copy_into b) l).
@@ -142,15 +233,25 @@ Proof.
   destruct H2. split; [now apply sorted_copy_into|now apply keys_ok_copy_into].
 Qed.
 
+Lemma write_low_wf b c : sorted false b -> keys_ok b -> cwf c -> cwf (write_low b c).
+Proof.
+  intros Sb Kb (Sm & Km & Sx & Kx & Ht & Hr). unfold write_low.
+  destruct (ctemp c) eqn:Et; [split; [|split; [|split; [|split; [|split]]]]; auto; now rewrite Et|].
+  split; [|split; [|split; [|split; [|split]]]]; simpl; auto using sorted_apply_writes, keys_ok_apply_writes.
+Qed.
+
 Lemma fstep_wf s a : fwf s -> fact_ok a -> fwf (fstep s a).
 Proof.
-  intros [Hu Hc] Ha. destruct a as [b|i b| | | |]; unfold fwf; cbn [fstep ups fsub].
+  intros [Hu Hc] Ha. destruct a as [b|i b| | | | | | |b]; unfold fwf; cbn [fstep ups fsub].
   - split; [exact Hu|]. apply cstep_wf; auto.
   - destruct Ha. split; [now apply upd_nth_wf|exact Hc].
   - split; [exact Hu|]. apply cstep_wf; simpl; auto.
   - split; [exact Hu|]. apply cstep_wf; simpl; auto.
   - split; [exact Hu|]. apply cstep_wf; simpl; auto.
   - split; [exact Hu|]. now apply persist_fail_wf.
+  - split; [exact Hu|]. apply cstep_wf; [|exact I]. apply cstep_wf; [|exact I]. apply cstep_wf; [exact Hc|exact I].
+  - split; [exact Hu|]. apply persist_fail_wf. apply cstep_wf; [exact Hc|exact I].
+  - destruct Ha. split; [exact Hu|]. now apply write_low_wf.
 Qed.
 
 Lemma frun_wf l : forall s, fwf s -> Forall fact_ok l -> fwf (frun_ s l).
@@ -160,13 +261,19 @@ Qed.
 
 (* every step that is not a write — the failing flush included — leaves the one map unchanged, at any depth *)
 Theorem fail_step_flat s a : fwf s ->
-  match a with FW _ | FWTop _ _ => True | _ => f_flat (fstep s a) = f_flat s end.
+  match a with FW _ | FWTop _ _ | FWLow _ => True | _ => f_flat (fstep s a) = f_flat s end.
 Proof.
-  intros [Hu Hc]. destruct a; auto; unfold f_flat; simpl; f_equal.
+  intros [Hu Hc]. destruct a; auto; unfold f_flat; cbn [fstep ups fsub]; f_equal.
   - exact (persist_regions_preserve_flat (fsub s) ASwap Hc).
   - exact (persist_regions_preserve_flat (fsub s) ALowerWrite Hc).
   - exact (persist_regions_preserve_flat (fsub s) AUnswap Hc).
   - now apply persist_fail_flat.
+  - pose proof (cstep_wf _ ASwap Hc I) as H1. pose proof (cstep_wf _ ALowerWrite H1 I) as H2.
+    rewrite (persist_regions_preserve_flat _ AUnswap H2 : cflat _ = _).
+    rewrite (persist_regions_preserve_flat _ ALowerWrite H1 : cflat _ = _).
+    exact (persist_regions_preserve_flat (fsub s) ASwap Hc).
+  - pose proof (cstep_wf _ ASwap Hc I) as H1. rewrite persist_fail_flat by exact H1.
+    exact (persist_regions_preserve_flat (fsub s) ASwap Hc).
 Qed.
 
 Lemma flat_layers_app l1 l2 b : flat_layers (l1 ++ l2) b = flat_layers l1 (flat_layers l2 b).
